@@ -84,7 +84,8 @@ Fixpoint go_card_loop (T : tables) (trips : list text) (digits : text) (i : Z) (
               then (false, words ++ [hundred_w] ++ [tnth one (dg digits i)], (i - 1)%Z)
               else (zero, words, (i - 1)%Z))
         else (zero, words, i) in
-      match (if (zero : bool) then (match words with [] => None | _ => Some (removelast words) end) else Some words) with
+      match (if (zero : bool) && Nat.ltb 0 (List.length trip)
+             then (match words with [] => None | _ => Some (removelast words) end) else Some words) with
       | None => None
       | Some words => if (i <? 0)%Z then Some words else go_card_loop T rest digits i words one (t_teen T)
       end
@@ -109,19 +110,18 @@ Fixpoint go_from_acc (t : text) (n : nat) : nat :=
   | a :: t' => if ascii_eqb a nl || ascii_eqb a (chr 13) || ascii_eqb a (chr 12) then go_from_acc t' 0 else go_from_acc t' (S n)
   end.
 Definition go_from (out : text) : nat := go_from_acc out 0.
-(* number of spaces dirT appends; None: integer division by zero *)
-Definition go_tab (at_ : bool) (colnum colinc : nat) (out : text) : option nat :=
+(* number of spaces dirT appends *)
+Definition go_tab (at_ : bool) (colnum colinc : nat) (out : text) : nat :=
   if at_ then
     let from := go_from out + colnum in               (* after the colnum spaces have been appended *)
-    if Nat.eqb colinc 0 then None
-    else let target := if Nat.eqb from (from / colinc * colinc) then from else from / colinc * colinc + colinc in
-         Some (colnum + (target - from))
+    let target := if Nat.eqb colinc 0 || Nat.eqb from (from / colinc * colinc) then from else from / colinc * colinc + colinc in
+    colnum + (target - from)
   else
     let from := go_from out in
     let target := colnum * colinc in
-    if Nat.ltb target from
-    then (if Nat.eqb colinc 0 then None else Some (from / colinc * colinc + colinc - from))
-    else Some (target - from).
+    let target := if Nat.eqb colinc 0 then Nat.max colnum from
+                  else if Nat.ltb target from then from / colinc * colinc + colinc else target in
+    target - from.
 (* number of newlines dirAmp appends *)
 Definition go_fresh (n : Z) (out : text) : nat :=
   let n := if Nat.ltb 0 (List.length out) && ascii_eqb (last out zero) nl then (n - 1)%Z else n in
